@@ -75,3 +75,10 @@ mod t {
         }
     }
 }
+
+/// `display_fallback` needs a `Display`: every default value of a generated group shows as `DFLT`
+impl std::fmt::Display for Val {
+    fn fmt(&self, f: &mut std::fmt::Formatter<'_>) -> std::fmt::Result {
+        write!(f, "DFLT")
+    }
+}
